@@ -54,6 +54,7 @@ impl Range {
 
     pub const _ERROR_NO_EMPTY_LINE_BETWEEN_CONTENT_RANGE_HEADER_AND_BODY: &'static str = "no empty line between content range headers and body";
     pub const _ERROR_UNABLE_TO_PARSE_CONTENT_RANGE: &'static str = "unable to parse content-range";
+    pub const _ERROR_PART_WITHOUT_CONTENT_TYPE_OR_CONTENT_RANGE: &'static str = "part of the multipart body does not start with content-type and content-range headers";
 
     pub const ERROR_START_IS_AFTER_END_CONTENT_RANGE: &'static str = "start is after end in content range";
     pub const ERROR_START_IS_BIGGER_THAN_FILESIZE_CONTENT_RANGE: &'static str = "start is bigger than filesize in content range";
@@ -750,6 +751,7 @@ impl Range {
             return Err("Response body doesn't start with a boundary".to_string())
         }
 
+        let mut is_part_expected = false;
         if string.contains(boundary.as_str()) && content_range_is_not_parsed {
             if !is_opening_boundary_read {
                 is_opening_boundary_read = true;
@@ -768,6 +770,9 @@ impl Range {
                 return Err(message);
             }
             string = boxed_line.unwrap();
+
+            // boundary is followed either by a part or, in case of the last boundary, by the end of the body
+            is_part_expected = string.trim().len() != 0;
         }
 
         let content_type_is_not_parsed = content_range.content_type.len() == 0;
@@ -837,6 +842,9 @@ impl Range {
 
         let content_range_is_parsed = content_range.size.len() != 0;
         let content_type_is_parsed = content_range.content_type.len() != 0;
+        if is_part_expected && !(content_range_is_parsed && content_type_is_parsed) {
+            return Err(Range::_ERROR_PART_WITHOUT_CONTENT_TYPE_OR_CONTENT_RANGE.to_string());
+        }
         if content_range_is_parsed && content_type_is_parsed {
             let mut body : Vec<u8> = vec![];
 
